@@ -55,6 +55,13 @@ def _payload(rng):
             ops.append({"op": "now"})
     if rng.random() < 0.12:
         ops.append({"op": "raise", "type": rng.choice(["E", "A", "K"])})
+    if rng.random() < 0.3 and ops:
+        # a cleanup that suspends: the task survives its cancellation for a while
+        handler = [{"op": "sleep", "d": rng.choice(DELAYS)}] if rng.random() < 0.6 \
+            else [{"op": "postpone", "k": rng.randint(1, 2)}]
+        if rng.random() < 0.3:
+            handler.append({"op": "sleep", "d": rng.choice(DELAYS)})
+        ops = [{"op": "finally", "body": ops, "handler": handler}]
     return ops
 
 
@@ -193,6 +200,11 @@ def check(rec, twin=None):
     t_events = [ev for ev in rec.trace if ev[3] == "t"]
     started = any(ev[4] == "start" for ev in t_events)
     t_exc = next((ev for ev in t_events if ev[4] == "exc"), None)
+    observed = [ev for ev in t_events if ev[4] in ("exc", "cleanup+") and ev[5]
+                and ev[5][0] == "CancelTask"]
+    seen_tokens = {}
+    for ev in observed:
+        seen_tokens.setdefault(tuple(ev[5][2]), ev[2])      # first time each token surfaced
     t_end = next((ev for ev in t_events if ev[4] == "end"), None)
     final = rec.final_status.get("t")
     # what do awaiters see
@@ -229,10 +241,11 @@ def check(rec, twin=None):
         if not match:
             bad("unknown-token", "t received CancelTask%r which nobody sent" % (meta[2],))
         else:
-            if match[0]["time"] != t_exc[2]:
+            surfaced = seen_tokens.get(tuple(meta[2]), t_exc[2])
+            if match[0]["time"] != surfaced:
                 bad("cancel-late", "cancel sent at %r surfaced in t at %r"
-                    % (match[0]["time"], t_exc[2]))
-            if first_live is not None and match[0] is not first_live:
+                    % (match[0]["time"], surfaced))
+            if first_live is not None and match[0] is not first_live and len(seen_tokens) < 2:
                 bad("wrong-cancel-won", "t reports token %r but the first effective cancel "
                     "carried %r" % (meta[2], first_live["token"]))
         if final != "CANCELLED":
@@ -263,12 +276,19 @@ def check(rec, twin=None):
                     tuple(res[1][2]) != tuple(token) or res[1][1] != "task:t":
                 bad("awaiter-token", "%s awaited pre-start-cancelled t and got %r (token %r)"
                     % (res[4], res[:2], token))
-    # a cancel sent to a live, suspended task must take effect within that time step
-    if first_live is not None and first_live["status"] == "RUNNING":
-        later = [ev for ev in t_events if ev[2] > first_live["time"]]
-        if later:
-            bad("cancel-ignored", "t was cancelled at %r (tick %d) but still acted at %r: %r"
-                % (first_live["time"], first_live["tick"], later[0][2], later[0][4]))
+    # a cancel sent to a live, suspended task is raised inside it within that time step (the
+    # task may survive it in a cleanup handler, where the next cancel must reach it as well)
+    for fault in cancels:
+        if fault["status"] != "RUNNING":
+            continue
+        later = [ev for ev in t_events if ev[2] > fault["time"]]
+        seen_at = seen_tokens.get(tuple(fault["token"]))
+        if later and seen_at is None:
+            bad("cancel-ignored", "t was cancelled at %r (tick %d, token %r) but never saw that "
+                "cancellation and still acted at %r: %r" % (
+                    fault["time"], fault["tick"], fault["token"], later[0][2], later[0][4]))
+        elif seen_at is not None and seen_at != fault["time"]:
+            bad("cancel-late", "cancel sent at %r surfaced in t at %r" % (fault["time"], seen_at))
     # every awaiter is served once the task is done
     if final in ("SUCCESS", "FAILED", "CANCELLED") and rec.outcome == ("ok",):
         waiting = {}
